@@ -415,8 +415,13 @@ class BatteryDistributionAlgorithm:
         for pair in components:
             battery, inverters = pair
             capacity_ratio = battery.capacity / total_capacity
-            soc_factor: float = pow(
-                available_soc[battery.component_id], self._distributor_exponent
+            # A battery without any available SoC must not be used at all.  Without
+            # this check `pow(0.0, 0.0) == 1.0` would give it a share when the
+            # distributor exponent is 0.
+            soc_factor: float = (
+                0.0
+                if is_close_to_zero(available_soc[battery.component_id])
+                else pow(available_soc[battery.component_id], self._distributor_exponent)
             )
 
             ratio = capacity_ratio * soc_factor
